@@ -56,8 +56,12 @@ def run(tier, seed, t0):
         jobs.append(cfg_job("asan", "nayuki-portable", 1025, 1, 3, 7, seed, "b", count=3, entries=5, timeout=3600))
         for be in vbuild.BACKENDS:
             jobs.append(cfg_job("asan", be, 6, 2 if be == "fftw" else 1, 3, 7, seed, "d", entries=15, timeout=3600))
+    # process history: every other job first generates and uses a key set of another layout (all dimensions different)
+    for i, j in enumerate(jobs):
+        if j.flavor in ("optim", "debug") and i % 2 == 0:
+            j.args = j.args + ["--prelude", "1"]
     for j in jobs:
-        j.weight = 2 if " 1100 " in " ".join(j.args) + " " else 1
+        j.weight = 2 if " 1100 " in " ".join(str(a) for a in j.args) + " " else 1
 
     def post(results, agg):
         tab = {}
